@@ -88,6 +88,9 @@ func (g *gen) buildCall(f *Func, depth int) Expr {
 }
 
 func (g *gen) selectExpr(t *Type, depth int) Expr {
+	if g.f.off("builtin.select") {
+		return g.leaf(t, depth)
+	}
 	g.class("select")
 	var cond Expr
 	if t.K == TVec && g.chance(50, "selvec") && !g.f.off("select.vector-cond") {
@@ -645,6 +648,10 @@ func (g *gen) vecExpr(t *Type, depth int) Expr {
 			// known finding: a multi-component swizzle of a dereferenced pointer parameter fails in SPIR-V
 			return g.vecConstruct(t, depth)
 		}
+		if _, ok := src.(*Binary); ok && g.f.off("swizzle.of-binary") {
+			// known finding (MSL): the parentheses around the swizzled binary expression are dropped
+			return g.vecConstruct(t, depth)
+		}
 		g.class("swizzle:multi")
 		return &Swizzle{X: src, Comps: comps, Set: g.intn(2, "swset"), T: t}
 	case r < 75:
@@ -692,17 +699,7 @@ func (g *gen) vecExpr(t *Type, depth int) Expr {
 		}
 		if src != Bool && src != F32 && g.chance(40, "vbitc") {
 			g.class("bitcast:vec")
-			vb := &Builtin{Name: "bitcast", Tmpl: t, Args: []Expr{g.expr(Vec(t.N, src), depth-1)}, T: t}
-			// Known finding (tag const.index.composite): a vector bitcast of a constant is not folded, but a
-			// component access of a constructor holding it is folded over the flat argument list
-			// (vec3(bitcast<vec2<i32>>(vec2<u32>(3u, 4u)), 7i).y gives 7); keep the operand run-time.
-			if foldable(vb.Args[0]) && g.f.off("const.index.composite") {
-				if g.inConst > 0 || len(g.inputs) == 0 {
-					return &Construct{T: t, Args: []Expr{vb.Args[0]}} // const context: convert instead
-				}
-				vb.Args[0] = g.runtimeOf(Vec(t.N, src))
-			}
-			return vb
+			return &Builtin{Name: "bitcast", Tmpl: t, Args: []Expr{g.expr(Vec(t.N, src), depth-1)}, T: t}
 		}
 		g.class("convert:vec:" + src.String() + "->" + k.String())
 		c := &Construct{T: t, Args: []Expr{g.expr(Vec(t.N, src), depth-1)}}
@@ -718,10 +715,10 @@ func (g *gen) vecExpr(t *Type, depth int) Expr {
 			o := 2 + g.intn(3, "mvn")
 			if g.chance(50, "mv") {
 				g.class("mat*vec")
-				return &Binary{Op: "*", L: g.expr(Mat(o, t.N, F32), depth-1), R: g.expr(Vec(o, F32), depth-1), T: t}
+				return g.matVecGuard(&Binary{Op: "*", L: g.expr(Mat(o, t.N, F32), depth-1), R: g.expr(Vec(o, F32), depth-1), T: t})
 			}
 			g.class("vec*mat")
-			return &Binary{Op: "*", L: g.expr(Vec(o, F32), depth-1), R: g.expr(Mat(t.N, o, F32), depth-1), T: t}
+			return g.matVecGuard(&Binary{Op: "*", L: g.expr(Vec(o, F32), depth-1), R: g.expr(Mat(t.N, o, F32), depth-1), T: t})
 		}
 		if k == F32 && t.N == 3 && !g.f.off("builtin.cross") {
 			g.class("builtin:cross")
@@ -769,7 +766,15 @@ func (g *gen) vecConstruct(t *Type, depth int) Expr {
 		if w == 1 {
 			args = append(args, g.expr(Scalar(k), depth-1))
 		} else {
-			args = append(args, g.expr(Vec(w, k), depth-1))
+			a := g.expr(Vec(w, k), depth-1)
+			// Known finding (tag const.index.composite): a component access of a constructor is folded
+			// over the flat argument list when a vector argument is a constant expression naga does not
+			// evaluate itself (bitcast<vecN>, matrix*vector, …): vec3(bitcast<vec2<i32>>(vec2<u32>(3u, 4u)), 7i).y
+			// gives 7.  Keep constant vector arguments plain literal constructors.
+			if foldable(a) && g.f.off("const.index.composite") {
+				a = g.constOf(Vec(w, k))
+			}
+			args = append(args, a)
 		}
 		left -= w
 	}
@@ -789,6 +794,15 @@ func (g *gen) bvecExpr(t *Type, depth int) Expr {
 		g.class("cmp" + op + ":vec<" + k.String() + ">")
 		vt := Vec(t.N, k)
 		b := &Binary{Op: op, L: g.expr(vt, depth-1), R: g.expr(vt, depth-1), T: t}
+		if g.inConst == 0 && len(g.inputs) > 0 && g.f.off("vec-compare.const-operand") {
+			// (known finding C05-20: a folded operand makes the GLSL writer use the scalar operator)
+			if foldable(b.L) {
+				b.L = g.runtimeOf(vt)
+			}
+			if foldable(b.R) {
+				b.R = g.runtimeOf(vt)
+			}
+		}
 		return g.guardConst(b, func() { b.R = g.runtimeOf(vt) })
 	case r < 70:
 		g.class("unary!:vec")
@@ -865,6 +879,24 @@ func (g *gen) matBinGuard(b *Binary) Expr {
 		return g.constOf(b.T)
 	}
 	b.R = g.runtimeOf(b.R.Type())
+	return b
+}
+
+// matVecGuard: same root cause as matBinGuard for matrix * vector and vector *
+// matrix with constant operands (tag const-fold.mat-vec, listed under C08-12):
+// the product is folded component-wise into a vector of the wrong size.
+func (g *gen) matVecGuard(b *Binary) Expr {
+	if !foldable(b.L) || !foldable(b.R) || !g.f.off("const-fold.mat-vec") {
+		return b
+	}
+	if g.inConst > 0 {
+		return g.constOf(b.T)
+	}
+	if b.R.Type().K == TVec {
+		b.R = g.runtimeOf(b.R.Type())
+	} else {
+		b.L = g.runtimeOf(b.L.Type())
+	}
 	return b
 }
 
